@@ -292,13 +292,24 @@ def run_documents():
     buf = io.BytesIO()
     doc.save(buf)
     doc2 = Document(io.BytesIO(buf.getvalue()))
-    meta = doc2.meta.get_user_defined_metadata()
+    try:
+        meta = doc2.meta.get_user_defined_metadata()
+    except Exception as ex:  # one unreadable entry makes the whole dict unreadable: reported per entry below
+        meta = None
+        meta_exc = ex
+
+    def meta_get(key):
+        if meta is None:
+            # read the entry alone
+            return doc2.meta.get_user_defined_metadata_of_name(key)["value"]
+        return meta[key]
+
     for i, v in enumerate(vals):
         if v is None:
             continue
         for site, getter in (("VarSet(value)", lambda: doc2.body.get_variable_set(f"v{i}").get_value()),
                              ("UserFieldDecl(value)", lambda: doc2.body.get_user_field_decl(f"u{i}").get_value()),
-                             ("Meta.set_user_defined_metadata", lambda: meta[f"m{i}"])):
+                             ("Meta.set_user_defined_metadata", lambda: meta_get(f"m{i}"))):
             n += 1
             try:
                 back = getter()
